@@ -368,6 +368,17 @@ class Ctx:
         for n in names:
             self.oblige("theorem %s (Qed, closed under the global context)" % n, all_closed,
                         "" if all_closed else "Print Assumptions: closed=%d of %d, axioms=%r" % (closed, len(names), axioms))
+        if all_closed and self.tier == "thorough":
+            # independent re-check of the compiled cone and of the axioms it relies on
+            mod = "WV." + vfile[:-2].replace("/", ".")
+            rc, chk = sh(["timeout", "1500", "coqchk", "-silent", "-Q", ".", "WV", "-o", mod], cwd=COQ, timeout=1600)
+            self.checker_cmds.append("coqchk -silent -Q . WV -o %s" % mod)
+            m = re.search(r"\* Axioms:(.*?)\n\s*\n\* Constants", chk, flags=re.S)
+            ax = m.group(1).strip() if m else "?"
+            okc = rc == 0 and ax == "<none>"
+            self.assumptions.append("coqchk -o %s: axioms %s" % (mod, ax))
+            self.oblige("coqchk re-checks %s and its dependencies; axioms: none" % mod, okc,
+                        "" if okc else chk[-600:])
         return all_closed, None, out
 
     def runner(self, comp, extract_v):
